@@ -10,7 +10,10 @@ use crate::{KdTree2, Result};
 use parry2d_f64::shape::ConvexPolygon;
 use parry2d_f64::transformation::convex_hull_idx;
 use serde::Serialize;
+#[cfg(not(feature = "verif"))]
 use std::collections::HashSet;
+#[cfg(feature = "verif")]
+use crate::verif::collections::HashSet;
 use std::f64::consts::{FRAC_PI_2, PI};
 
 /// Computes the convex hull of a set of 2d points, returning a vector of `usize` elements that
